@@ -107,6 +107,15 @@ def examine(case):
         ra, rb = sql_of(a), sql_of(b)
         if ra != rb:
             F("empty-not-neutral", "%s renders %s but without the empty members %s" % (src_e, ra, rb))
+        # any iterable is accepted, also a lazy one (generator, iterator, tuple) — including an empty one
+        for form, wrap in (("generator", "(x for x in [%s])"), ("iterator", "iter([%s])"), ("tuple", "tuple([%s])")):
+            try:
+                rl = sql_of(ns.ev("Criterion.%s(%s)" % (kind, wrap % ", ".join(with_e))))
+            except Exception as e:
+                rl = "raises %s" % type(e).__name__
+            if rl != ra:
+                F("iterable-form", "Criterion.%s over a %s of the same members gives %s, over a list %s" % (kind, form, rl, ra))
+                break
         # equivalent to the left-to-right chain of the non-empty members
         if without:
             op = "&" if kind == "all" else "|"
